@@ -93,9 +93,25 @@ def check(ctx):
                 g = ctx.prog.fns.get(dn)
                 if g is not None and dn.endswith("::done") and tyn and dn.startswith(tyn + "::"):
                     gc = ctx.an.sites(g, CONSUMERS, "must")
-                    def connected(a):
-                        return a.kind == "truth" and a.truth is True and all_fields(a.origin)[-1:] and all_fields(a.origin)[-1].endswith(".is_connected")
-                    blk, good = ctx.edge_blocker(g, connected)
+                    # the early return is decided by a test of one of the source's own plain fields that done() never writes (its value
+                    # predates the suspension: `is_connected`, set by the first connect attempt). One side of that test may skip the
+                    # consumption, the other side must consume on every path.
+                    written = set()
+                    for wq in g.points():
+                        if not g.is_term(wq) and g.node(wq).get("s") == "=":
+                            pj = g.node(wq)["l"]["p"]
+                            if pj and isinstance(pj[-1], dict) and "f" in pj[-1]: written.add(leaf_field(simplify(trace_place(g, g.node(wq)["l"]))))
+                    def own_field(a):
+                        for o in (getattr(a, "origin", None), getattr(a, "a", None), getattr(a, "b", None)):
+                            if not isinstance(o, tuple): continue
+                            lf = leaf_field(simplify(o))
+                            if lf and lf.startswith(tyn + ".") and lf not in written and root_of(simplify(o))[0] == "arg": return True
+                        return False
+                    skip = set(); consuming = 0
+                    for sb, tb, lab in ctx.edges(g, own_field):
+                        if any(x in ctx.an.reach(g, [Point(tb, 0)], blocked=gc) for x in g.ret_points()): skip.add((sb, tb))
+                        else: consuming += 1
+                    blk = (lambda p, q2, lab, skip=skip, g=g: g.is_term(p) and (p.bb, q2.bb) in skip) if consuming else None
                     rr = ctx.an.reach(g, [Point(0, 0)], blocked=gc, blocked_edges=blk)
                     if gc and not any(x in rr for x in g.ret_points()):
                         cons = cons | {q}
